@@ -75,7 +75,7 @@ fn check_answers(ctx: &mut Ctx, d: &Desc, loaded: &dyn Ser, case: &dyn Fn() -> V
                 }
             }
         }
-        Desc::Int { values, width } => {
+        Desc::Int { values, width } | Desc::IntHist { values, width } => {
             if let Some(iv) = loaded.as_any().downcast_ref::<IntVector>() {
                 let got = guard(|| (iv.iter().collect::<Vec<u64>>(), iv.width(), iv.len()));
                 ctx.expect(|| "IntVector(loaded).iter".to_string(), got, &(values.clone(), *width, values.len()), || json!({"x": case(), "call": "iter()"}));
